@@ -690,6 +690,23 @@ class Env:
         self.Quantity = Quantity
 
 
+def lib_quantum(q, salt):
+    """A quantum may be given as Fraction, as Decimal (if it has a finite
+    decimal form) or as int."""
+    from decimalfp import Decimal
+    f = Fraction(q)
+    if f.denominator == 1 and salt % 3 == 0:
+        return int(f)
+    d = f.denominator
+    while d % 2 == 0:
+        d //= 2
+    while d % 5 == 0:
+        d //= 5
+    if d == 1 and salt % 3 != 1:
+        return Decimal(f.numerator) / Decimal(f.denominator)
+    return f
+
+
 def lib_num(spec):
     from decimalfp import Decimal
     from quantity import si_prefixes
@@ -754,7 +771,7 @@ def perform(env: Env, act):
                 kw['ref_unit_symbol'] = act['ref_sym']
                 kw['ref_unit_name'] = 'ref ' + act['name']
             if act['quantum'] is not None:
-                kw['quantum'] = Fraction(act['quantum'])
+                kw['quantum'] = lib_quantum(act['quantum'], len(act['name']))
             cls = QuantityMeta(act.get('clsname') or act['name'],
                                (Quantity,), {}, **kw)
             env.types[act['name']] = cls
@@ -767,7 +784,7 @@ def perform(env: Env, act):
             if act['ref_sym'] is not None:
                 kw['ref_unit_symbol'] = act['ref_sym']
             if act['quantum'] is not None:
-                kw['quantum'] = Fraction(act['quantum'])
+                kw['quantum'] = lib_quantum(act['quantum'], len(act['name']))
             cls = QuantityMeta(act.get('clsname') or act['name'],
                                (Quantity,), {}, **kw)
             env.types[act['name']] = cls
